@@ -26,8 +26,8 @@ func init() {
 // the model's `panic`.  Trees: G-tree instances of every kind (absent children and tokens included),
 // parsed corpus and grammar-driven sources under 7.4 / 5.6, the same with other trivia, with tokens
 // removed at random, and trees that went through the formatter once already.
-// Child slices are re-allocated with capacity = length first: formatStmts' in-place `insert` under a
-// running `range` is outside the model (DESIGN: trusted base of C17).
+// Half of the trees get their child slices re-allocated with capacity = length, half keep what the
+// parser's appends left (formatStmts' `insert` must not depend on spare capacity).
 
 func encTokI(b *strings.Builder, t *token.Token) {
 	b.WriteString(strconv.Itoa(len(t.FreeFloating)))
@@ -214,7 +214,9 @@ func diffFormatter() *Result {
 		if root == nil || isNilVertex(root) {
 			return
 		}
-		exactCaps(root)
+		if rng.Intn(2) == 0 {
+			exactCaps(root)
+		}
 		var b strings.Builder
 		b.WriteString("format ")
 		if !encodeTreeI(&b, root) {
